@@ -225,3 +225,8 @@ register("C16", run_c16, replay_models)
 # ---------------------------------------------------------------- C11: diagnostics
 import c11
 register("C11", c11.run, c11.replay)
+
+
+# ---------------------------------------------------------------- C12: incremental builds
+import c12
+register("C12", c12.run, c12.replay)
